@@ -40,6 +40,20 @@ def infer(src):
           "errors": [e[0] for e in r["errors"]]}
 
 
+def infer_nocache(src):
+  """Counterfactual for the known call-cache finding: the same analysis with
+  skip_repeat_calls=False (every call of an interpreter function is re-analysed)."""
+  import terms
+  r = pyt.analyze(src, want_ast=True, skip_repeat_calls=False)
+  if r["outcome"] != "result":
+    return {"outcome": r["outcome"], "exc": r["exc"], "errors": r["errors"]}
+  return {"outcome": "result", "slots": terms.stub_slots(r["ast"]), "pyi": r["pyi"],
+          "errors": [e[0] for e in r["errors"]]}
+
+
+KNOWN_CACHE = "C01:call-cache-return-invisible-in-sibling-branch"
+
+
 def build_case(run_rec, inf):
   """Join run-time observations with the stub's declarations -> slot table."""
   st = inf["slots"]
@@ -144,13 +158,38 @@ def main():
   run.sample({"src": keep[0][0]["src"], "pyi": keep[0][1]["pyi"], "slots": cases[0]["slots"][:4]})
   common.require(run.cov["slots_by_kind"]["attr"] > 10 and run.cov["slots_by_kind"]["ret"] > 10
                  or a.replay, "vacuity: attribute / return slots not exercised")
-  for rec_bad in tlc.parse_cases(r.out, "BAD"):
+  bads = tlc.parse_cases(r.out, "BAD")
+  # attribution to the known call-cache finding is by a counterfactual run judged by TLC as well:
+  # the same program analysed with skip_repeat_calls=False must admit the slot
+  cf_bad = {}
+  if bads:
+    idxs = sorted({b["i"] - 1 for b in bads})
+    cf_infs = pyt.batch(infer_nocache, [keep[i][0]["src"] for i in idxs], procs=8, chunksize=1)
+    cf_cases, cf_idx = [], []
+    for i, inf2 in zip(idxs, cf_infs):
+      if inf2["outcome"] == "result":
+        cf_cases.append(build_case(keep[i][0], inf2))
+        cf_idx.append(i)
+    if cf_cases:
+      _, bad2, r2 = tlc.validate_cases("TraceC01", cf_cases, cfg=TRACE_CFG, timeout=3000, heap="4g")
+      common.require(bad2 is None, "TraceC01 invariant cannot fail")
+      for i, c in zip(cf_idx, cf_cases):
+        cf_bad[i] = set()
+      for b in tlc.parse_cases(r2.out, "BAD"):
+        i = cf_idx[b["i"] - 1]
+        cf_bad[i] = {(cf_cases[b["i"] - 1]["slots"][k - 1]["k"], cf_cases[b["i"] - 1]["slots"][k - 1]["n"])
+                     for k in b["fails"]}
+    run.put("counterfactual_runs", len(cf_cases))
+  for rec_bad in bads:
     idx = rec_bad["i"] - 1
     rec, inf = keep[idx]
     for k in rec_bad["fails"]:
       s = cases[idx]["slots"][k - 1]
-      key = "C01:%s:%s:%s" % (s["k"], json.dumps(s["t"], separators=(",", ":")),
-                              json.dumps(s["v"], separators=(",", ":")))
+      if idx in cf_bad and (s["k"], s["n"]) not in cf_bad[idx]:
+        key = KNOWN_CACHE
+      else:
+        key = "C01:%s:%s:%s" % (s["k"], json.dumps(s["t"], separators=(",", ":")),
+                                json.dumps(s["v"], separators=(",", ":")))
       run.violation(key, "slot %s %s declared %s but holds %s" % (s["k"], s["n"], s["t"], s["v"]),
                     {"program": rec["program"], "src": rec["src"], "pyi": inf["pyi"], "slot": s})
   return run.finish()
